@@ -5,6 +5,7 @@
 //  (2) LP x parameter vectors with <= 1 deviation x {real, rational}: writeState*, then readFile + readBasisFile + loadSettingsFile
 //      into a new object: LP (under the MPS normalisations), basis statuses, every parameter, and the re-solve must agree.
 #include "vx_history.hpp"
+#include "vx_planted.hpp"
 using namespace vx;
 
 static ConfigSpace g_cs;
@@ -29,20 +30,63 @@ static bool same_status(SPxSolver::VarStatus got, SPxSolver::VarStatus want, dou
 }
 
 // (1)
+typedef std::vector<std::pair<std::vector<SPxSolver::VarStatus>, std::vector<SPxSolver::VarStatus>>> BasisList;
+static uint64_t run_basisfiles_core(const TinyLP& t, const BasisList* given, const std::string& caseLP, const std::string& sigTag, int outside, int names, int cpx, Ctx& c);
+
 static uint64_t run_basisfiles(const TinyLP& t, int outside, int names, int cpx, Ctx& c)
 {
+   return run_basisfiles_core(t, nullptr, t.str(), "", outside, names, cpx, c);
+}
+
+// planted medium-size LP: the bases are the ones iteration-limited solves stop at (limits 1, 2, 3, 5, 8, 13, ... under column and under row representation) - dozens of
+// rows and columns with every kind of status, so the XU/XL pairing of basic columns with nonbasic rows in the writer works on long lists
+static uint64_t run_planted14(const PlantedSpec& sp, int outside, int names, int cpx, Ctx& c)
+{
+   PlantedLP P = planted(sp);
+   const TinyLP& t = P.lp;
+   BasisList bases;
+   for(int rep = 1; rep <= 2; ++rep)
+   {
+      int N = 0;
+      { SoPlex r; quiet(r); r.setIntParam(SoPlex::REPRESENTATION, rep); r.setIntParam(SoPlex::SIMPLIFIER, SoPlex::SIMPLIFIER_OFF); load_real(r, t, 0); r.optimize(); N = r.numIterations(); }
+      for(int k = 1, kp = 1; k < N && bases.size() < 12; )
+      {
+         SoPlex s;
+         quiet(s);
+         s.setIntParam(SoPlex::REPRESENTATION, rep);
+         s.setIntParam(SoPlex::SIMPLIFIER, SoPlex::SIMPLIFIER_OFF);
+         s.setIntParam(SoPlex::ITERLIMIT, k);
+         load_real(s, t, 0);
+         s.optimize();
+         if(s.hasBasis())
+         {
+            std::pair<std::vector<SPxSolver::VarStatus>, std::vector<SPxSolver::VarStatus>> b(std::vector<SPxSolver::VarStatus>(t.m + 1), std::vector<SPxSolver::VarStatus>(t.n + 1));
+            s.getBasis(b.first.data(), b.second.data());
+            bases.push_back(b);
+         }
+         int nk = k + kp; kp = k; k = nk;
+      }
+   }
+   c.count("planted_lp_x_filecfg");
+   return run_basisfiles_core(t, &bases, sp.str(), "+planted", outside, names, cpx, c);
+}
+
+static uint64_t run_basisfiles_core(const TinyLP& t, const BasisList* given, const std::string& caseLP, const std::string& sigTag, int outside, int names, int cpx, Ctx& c)
+{
    XLP x = t.exact();
-   Classification cl = classify(x, false, true);
+   Classification cl;
+   if(!given) cl = classify(x, false, true);
    int n = t.n, m = t.m;
-   std::string cfgs = std::string(outside ? "lp-outside-solver" : "lp-in-solver") + "," + (names ? "user-names" : "default-names") + ",cpx=" + std::to_string(cpx);
-   std::string cs = t.str() + "#" + std::to_string(outside) + "," + std::to_string(names) + "," + std::to_string(cpx);
+   std::string cfgs = std::string(outside ? "lp-outside-solver" : "lp-in-solver") + "," + (names ? "user-names" : "default-names") + ",cpx=" + std::to_string(cpx) + sigTag;
+   std::string cs = caseLP + "#" + std::to_string(outside) + "," + std::to_string(names) + "," + std::to_string(cpx);
    NameSet rn, cn;
    if(names) make_names(rn, cn, m, n);
    const NameSet* prn = names ? &rn : nullptr;
    const NameSet* pcn = names ? &cn : nullptr;
    std::string f = g_tmp + "/b" + std::to_string(getpid()) + ".bas";
    // the set of bases: index -1 = basis left by the solve, then all regular bases x placements
-   std::vector<std::pair<std::vector<SPxSolver::VarStatus>, std::vector<SPxSolver::VarStatus>>> bases;
+   BasisList bases;
+   if(given) bases = *given;
    for(auto& basic : cl.regular)
    {
       std::vector<bool> isb(n + m, false);
@@ -110,7 +154,7 @@ static uint64_t run_basisfiles(const TinyLP& t, int outside, int names, int cpx,
    }
    unlink(f.c_str());
    c.count("lp_x_filecfg");
-   if(c.wantSample() && bases.size() > 3) c.sample("{\"lp\":" + t.json() + ",\"file_config\":" + jstr(cfgs) + ",\"valid_bases_written_and_read\":" + std::to_string(bases.size() + 1) + "}");
+   if(c.wantSample() && bases.size() > 3) c.sample("{\"lp\":" + (given ? jstr(caseLP) : t.json()) + ",\"file_config\":" + jstr(cfgs) + ",\"valid_bases_written_and_read\":" + std::to_string(bases.size() + 1) + "}");
    return h;
 }
 
@@ -248,8 +292,15 @@ int main(int argc, char** argv)
       p += 9;
       std::string cs = doc.substr(p, doc.find('"', p) - p);
       auto parts = split(cs, '#');
-      TinyLP t = TinyLP::parse(parts[0]);
       mallopt(M_PERTURB, 85);
+      PlantedSpec psp;
+      if(cs.compare(0, 2, "P:") == 0 && PlantedSpec::parse(parts[0], psp) && parts.size() == 2)
+      {
+         int a = 0, b = 0, d = 0;
+         sscanf(parts[1].c_str(), "%d,%d,%d", &a, &b, &d);
+         return replay_case([&](Ctx & c) { run_planted14(psp, a, b, d, c); });
+      }
+      TinyLP t = TinyLP::parse(parts[0]);
       if(parts.size() == 2)
       {
          int a = 0, b = 0, d = 0;
@@ -285,6 +336,19 @@ int main(int argc, char** argv)
    [&](uint64_t idx, uint64_t) { int k = int(idx % 8); return std::string("@") + ((k & 1) ? "lp-outside-solver" : "lp-in-solver") + "," + (((k >> 1) & 1) ? "user-names" : "default-names") + ",cpx=" + std::to_string((k >> 2) & 1); });
    uint64_t stride2 = fs.total / (thorough ? 6000 : 400) + 1;
    uint64_t NC = cfg1.size() * 4;
+   {
+      static PlantedGrid pg;
+      pg.sizes = {{6, 5}, {10, 8}, {8, 12}, {16, 12}, {12, 20}, {24, 24}};
+      pg.densities = {40};
+      pg.seeds = thorough ? 6 : 1;
+      pg.kinds = 4;
+      rep.phase("basis files: planted LPs up to 24x24 x bases of iteration-limited solves x names x format x writer branch", pg.size() * 8, [&](uint64_t idx, int, Ctx & c) -> uint64_t
+      {
+         int k = int(idx % 8);
+         return run_planted14(pg.at(idx / 8), k & 1, (k >> 1) & 1, (k >> 2) & 1, c);
+      }, [&](uint64_t idx, uint64_t) { int k = int(idx % 8); return pg.at(idx / 8).str() + "#" + std::to_string(k & 1) + "," + std::to_string((k >> 1) & 1) + "," + std::to_string((k >> 2) & 1); }, o);
+      rep.extra["planted_grid"] = jstr("sizes (n x m) 6x5 10x8 8x12 16x12 12x20 24x24, density 40 %, degenerate 0/1, min/max, kinds OPT/INF/UNB/COV, seeds 0.." + std::to_string(pg.seeds - 1));
+   }
    rep.phase("state files: LP x dev<=1 x real/rational x names", (fs.total / stride2) * NC, [&](uint64_t idx, int, Ctx & c) -> uint64_t
    {
       TinyLP t;
